@@ -12,6 +12,7 @@ func VerifC13Tiles() {
 	e := vCase("e")
 	ov := vCase("ov")
 	maxrun := vCase("maxrun")
+	dz := vCase("dz") // the second tile's vertical zoom is zk + dz (mixed vertical zooms in one request)
 	off := vNondetInt64("off")
 	vAssume(-(int64(1)<<30) <= off && off <= int64(1)<<30)
 	var hz, xs, ys, zs, mn, mx [2]int64
@@ -24,10 +25,11 @@ func VerifC13Tiles() {
 		ys[i] = vNondetInt64(vN("y", i))
 		zs[i] = vNondetInt64(vN("z", i))
 		vAssume(0 <= hz[i] && hz[i] <= 35)
-		t, err := object.NewTileXYZ(hz[i], xs[i], ys[i], zk, zs[i])
+		zki := zk + i*dz
+		t, err := object.NewTileXYZ(hz[i], xs[i], ys[i], zki, zs[i])
 		vAssume(err == nil)
 		tiles = append(tiles, t)
-		a, b, er := ConvertAltitudekeyToMinMaxZ(zs[i], zk, ov, e, off)
+		a, b, er := ConvertAltitudekeyToMinMaxZ(zs[i], zki, ov, e, off)
 		mn[i], mx[i], okk[i] = a, b, er == nil
 		if er != nil {
 			anyErr = true
